@@ -1,4 +1,762 @@
 import FqModel.Proto
-/-! driver for C15 (stub — replaced by the property's own driver) -/
-open FqModel.Proto
-def main : IO Unit := run (fun _ _ => "BADOP driver-stub")
+import FqModel.Bits
+import FqModel.Container
+/-! driver for C15 (container decoders)
+
+  `crc <table> <bits> <init> <hex data>` TAB `<hex of checksum.CRC.Sum after Write(data)>`
+      model: `crcWrite` over the REGENERATED table + `crcSum`; predicate: the bit-by-bit CRC with the
+      textbook polynomial (hand written here, independent of the generated facts).
+  `dec <format> <hex file> <truth…>` TAB `<ok|err> <projection tokens of fq>`
+      model (gzip, tar, png, ogg_page): the Lean parser on the same bytes renders the same tokens
+      (inflate results are taken from the truth: library code); predicate: the projection against the
+      generator's ground truth and the stored checksums against the Lean `crc32`/`adler32`/`crcMsb`.
+      zip, gif, wav: predicate only.
+  `cor <format> <hex file> <pos>:<xor>:<kind>…` TAB `<code>…`
+      predicate "never a clean result": kind d: E|I; kind z,a: E|I|C=; kind u (zip/tar, checksum
+      never verified by fq): E|I, a clean result is the known finding `checksum-not-validated`.
+      For png/ogg_page/gzip-trailer the driver re-derives from its own parse that a `d` position
+      really lies in a checksummed region.
+-/
+open FqModel FqModel.Container FqModel.Proto
+
+abbrev Toks := List String
+
+def hexB (bs : Bytes) : String := if bs.isEmpty then "-" else hexOfBytes bs
+/-- a text field as fq shows it: UTF-8 decoded (BOM dropped, ill-formed parts replaced) -/
+def hexS (bs : Bytes) : String := hexB (utf8Text bs)
+def optHexS : Option Bytes → String
+  | some b => hexS b
+  | none => "~"
+def optHex : Option Bytes → String
+  | some b => hexB b
+  | none => "~"
+def optNat : Option Nat → String
+  | some n => toString n
+  | none => "~"
+def bit (b : Bool) : String := if b then "1" else "0"
+
+def unhex (s : String) : Option Bytes := bytesOfHex s
+/-- "~" = absent -/
+def unhexOpt (s : String) : Option (Option Bytes) :=
+  if s == "~" then some none else (bytesOfHex s).map some
+
+/-- value of `key=` in a token list -/
+def kvGet (ws : Toks) (k : String) : Option String :=
+  (ws.find? (·.startsWith (k ++ "="))).map (fun w => (w.drop (k.length + 1)).toString)
+def kvNat (ws : Toks) (k : String) : Option Nat := (kvGet ws k).bind String.toNat?
+def kvHex (ws : Toks) (k : String) : Option Bytes := (kvGet ws k).bind unhex
+def kvHexOpt (ws : Toks) (k : String) : Option (Option Bytes) := (kvGet ws k).bind unhexOpt
+
+/-- split at marker tokens: prefix, then one segment per marker (without it) -/
+def splitAt (isMark : String → Bool) (ws : Toks) : Toks × List (String × Toks) :=
+  let rec go (ws : Toks) (cur : Toks) (curM : Option String) (pre : Toks) (acc : List (String × Toks)) : Toks × List (String × Toks) :=
+    match ws with
+    | [] => match curM with
+      | none => (cur.reverse, acc.reverse)
+      | some m => (pre, ((m, cur.reverse) :: acc).reverse)
+    | w :: r =>
+      if isMark w then
+        match curM with
+        | none => go r [] (some w) cur.reverse acc
+        | some m => go r [] (some w) pre ((m, cur.reverse) :: acc)
+      else go r (w :: cur) curM pre acc
+  go ws [] none [] []
+
+/-- model tokens may end in "*" (rest not predicted) -/
+def matchToks : Toks → Toks → Bool
+  | ["*"], _ => true
+  | [], [] => true
+  | m :: ms, o :: os => m == o && matchToks ms os
+  | _, _ => false
+
+def showToks (t : Toks) : String := " ".intercalate t
+
+def firstDiff (m o : Toks) : String :=
+  let rec go (i : Nat) : Toks → Toks → String
+    | ["*"], _ => "none"
+    | [], [] => "none"
+    | a :: as, b :: bs => if a == b then go (i+1) as bs else s!"token#{i}:model={a.take 60},impl={b.take 60}"
+    | [], b :: _ => s!"token#{i}:model=<end>,impl={b.take 60}"
+    | a :: _, [] => s!"token#{i}:model={a.take 60},impl=<end>"
+  go 0 m o
+
+/-- combine the predicate's verdict with the model comparison -/
+def verdictWith (prop : String) (model obs : Toks) : String :=
+  let div := if matchToks model obs then "" else s!"DIVERGE model={firstDiff model obs}"
+  if prop == "OK" then (if div.isEmpty then "OK" else div)
+  else if div.isEmpty then prop else s!"{prop} ;{div}"
+
+/-! ### crc -/
+
+def refPoly (name : String) : Option (Nat × Nat) :=
+  if name == "ATM8" then some (0x07, 8)
+  else if name == "ANSI16" then some (0x8005, 16)
+  else if name == "Poly04c11db7" then some (0x04C11DB7, 32)
+  else if name == "IEEELE" then some (0xEDB88320, 32)     -- fq's MakeTable(0xedb88320, 32): msb-first use of the reflected constant (unused by any decoder)
+  else none
+
+def stepCrc (name sbits sinit shex obs : String) : String :=
+  match genTable name, refPoly name, sbits.toNat?, sinit.toNat?, unhex shex with
+  | some (tbl, _, gbits), some (rpoly, rbits), some bits, some init, some data =>
+    if gbits != bits then s!"DIVERGE model=table-bits-{gbits}"
+    else
+      let model := match crcWrite bits tbl init data with
+        | .ok cur => (crcSum bits cur).map hexB |>.getD "panic"
+        | .panic => "panic"
+      let ref := crcMsb rpoly rbits init data
+      let refHex := hexB (toBE (rbits / 8) ref)
+      if obs != refHex then
+        s!"PROPFAIL crc {name} of {data.length} bytes: fq {obs} reference {refHex}" ++ (if model == obs then "" else s!" ;DIVERGE model={model}")
+      else verdict model obs
+  | _, _, _, _, _ => "BADOP crc"
+
+/-! ### gzip -/
+
+structure GzTruth where
+  flg : Nat
+  name : Option Bytes
+  comment : Option Bytes
+  extra : Option Bytes
+  mtime : Nat
+  xfl : Nat
+  os : Nat
+  hlen : Nat
+  clen : Nat
+  data : Bytes
+
+def gzTruth (seg : Toks) : Option GzTruth := do
+  pure { flg := ← kvNat seg "flg", name := ← kvHexOpt seg "name", comment := ← kvHexOpt seg "comment", extra := ← kvHexOpt seg "extra",
+         mtime := ← kvNat seg "mtime", xfl := ← kvNat seg "xfl", os := ← kvNat seg "os", hlen := ← kvNat seg "hlen",
+         clen := ← kvNat seg "clen", data := ← kvHex seg "data" }
+
+def gzHeaderToks (h : GzHeader) : Toks :=
+  ["M", toString h.cm, bit h.text ++ bit h.hcrc ++ bit h.extra ++ bit h.name ++ bit h.comment, toString h.reserved,
+   toString h.mtime, toString h.xfl, toString h.os, optNat h.xlen, optHex h.extraBytes, optHexS h.nameStr, optHexS h.commentStr,
+   optHex h.hcrcBytes, "B"]
+
+def gzBodyToks (b : GzBody) : Toks := [toString b.clen, toString b.crc, b.crcDesc, toString b.isize, hexB b.data]
+
+/-- header tokens the as-is model predicts for the members up to the first misaligned one -/
+def gzModelPrefix (ts : List GzTruth) (file : Bytes) : Toks :=
+  let rec go (fuel : Nat) (ts : List GzTruth) (bs : Bytes) (acc : Toks) : Toks × Bool :=
+    match fuel, ts with
+    | 0, _ => (acc, false)
+    | _, [] => (acc, bs.isEmpty)
+    | fuel+1, t :: ts =>
+      match parseGzHeader bs with
+      | none => (acc ++ ["*"], false)
+      | some (h, rest) =>
+        if bs.length - rest.length != t.hlen then (acc ++ (gzHeaderToks h).dropLast ++ ["*"], false)
+        else match parseGzBody (fun _ => some (t.clen, t.data)) h.cm rest with
+          | none => (acc ++ gzHeaderToks h ++ ["*"], false)
+          | some (b, rest') => go fuel ts rest' (acc ++ gzHeaderToks h ++ gzBodyToks b)
+  let (toks, clean) := go (ts.length + 1) ts file []
+  if clean then toks ++ ["U", hexB (ts.flatMap (·.data))] else toks
+
+def gzProp (ts : List GzTruth) (obs : Toks) : String :=
+  match obs with
+  | e :: n :: rest =>
+    let (_, segs) := splitAt (fun w => w == "M" || w == "U") rest
+    let ms := segs.filter (·.1 == "M")
+    let rec chk (i : Nat) : List GzTruth → List (String × Toks) → Option (Nat × String)
+      | [], _ => none
+      | _ :: _, [] => some (i, "member missing")
+      | t :: ts, (_, m) :: ms =>
+        match m with
+        | [cm, _fl, _rs, mtime, xfl, os, _xlen, extra, name, comment, _hcrc, "B", clen, crc, cd, isize, u] =>
+          let bad :=
+            if cm != "8" then "compression_method"
+            else if name != optHex t.name then "name"
+            else if comment != optHex t.comment then "comment"
+            else if extra != optHex t.extra then "extra"
+            else if mtime != toString t.mtime then "mtime"
+            else if xfl != toString t.xfl then "extra_flags"
+            else if os != toString t.os then "os"
+            else if clen != toString t.clen then "compressed size"
+            else if u != hexB t.data then "uncompressed payload"
+            else if crc != toString (crc32 t.data).toNat then "stored crc32 is not the crc32 of the payload"
+            else if cd != "valid" then s!"crc32 description {cd}"
+            else if isize != toString (t.data.length % 2 ^ 32) then "isize"
+            else ""
+          if bad.isEmpty then chk (i+1) ts ms else some (i, bad)
+        | _ => some (i, "member shape")
+    match chk 0 ts ms with
+    | some (i, why) =>
+      -- excused only when a member up to and including the failing one has a non-zero FLG byte
+      if (ts.take (i+1)).any (·.flg != 0) then s!"KNOWN gzip-flags-bit-order member {i}: {why}"
+      else s!"PROPFAIL gzip member {i}: {why}"
+    | none =>
+      if e != "ok" then "PROPFAIL gzip: decode error on an intact file"
+      else if n != toString ts.length then s!"PROPFAIL gzip: {n} members reported, {ts.length} written"
+      else match segs.find? (·.1 == "U") with
+        | some (_, [u]) => if u == hexB (ts.flatMap (·.data)) then "OK" else "PROPFAIL gzip: root uncompressed differs from the concatenated payloads"
+        | _ => "PROPFAIL gzip: root uncompressed missing"
+  | _ => "PROPFAIL gzip: no projection (decode failed outright)"
+
+def stepGzip (file : Bytes) (truth obs : Toks) : String :=
+  let (_, segs) := splitAt (· == "M") truth
+  match segs.mapM (fun s => gzTruth s.2) with
+  | none => "BADOP gzip truth"
+  | some ts =>
+    let pre := gzModelPrefix ts file
+    -- the model predicts the member tokens; err/count only when every member is aligned
+    let aligned := pre.getLast? != some "*"
+    let model : Toks := if aligned then ["ok", toString ts.length] ++ pre else
+      match obs with
+      | e :: n :: _ => [e, n] ++ pre
+      | _ => ["*"]
+    verdictWith (gzProp ts obs) model obs
+
+/-! ### tar -/
+
+def tarEntryToks (e : TarEntry) : Toks :=
+  ["F", hexS e.name, optNat e.mode, optNat e.uid, optNat e.gid, toString e.size, optNat e.mtime, optNat e.chksum,
+   hexS e.typeflag, hexS e.linkname, hexS e.magic, optNat e.version, hexS e.uname, hexS e.gname, optNat e.devmajor,
+   optNat e.devminor, hexS e.pfx, toString e.hpad, hexB e.data, toString e.dpad]
+
+def tarModel (file : Bytes) : Toks :=
+  let r := parseTar file
+  if r.err then ["err", "*"] else
+  ["ok", toString r.files.length] ++ r.files.flatMap tarEntryToks ++ ["E", optNat r.endMarker]
+
+structure TarTruth where
+  name : Bytes
+  typ : Nat
+  link : Option Bytes
+  mode : Nat
+  uid : Nat
+  gid : Nat
+  mtime : Nat
+  uname : Option Bytes
+  gname : Option Bytes
+  data : Bytes
+
+def tarTruth (seg : Toks) : Option TarTruth := do
+  pure { name := ← kvHex seg "name", typ := ← kvNat seg "type", link := ← kvHexOpt seg "link", mode := ← kvNat seg "mode",
+         uid := ← kvNat seg "uid", gid := ← kvNat seg "gid", mtime := ← kvNat seg "mtime", uname := ← kvHexOpt seg "uname",
+         gname := ← kvHexOpt seg "gname", data := ← kvHex seg "data" }
+
+structure TarObs where
+  name : Bytes
+  mode : String
+  uid : String
+  gid : String
+  size : String
+  mtime : String
+  chksum : String
+  typeflag : Bytes
+  linkname : Bytes
+  uname : Bytes
+  gname : Bytes
+  pfx : Bytes
+  data : Bytes
+
+def tarObs (m : Toks) : Option TarObs :=
+  match m with
+  | [name, mode, uid, gid, size, mtime, chksum, tf, ln, _magic, _ver, un, gn, _dmaj, _dmin, pfx, _hp, data, _dp] => do
+    pure { name := ← unhex name, mode, uid, gid, size, mtime, chksum, typeflag := ← unhex tf, linkname := ← unhex ln,
+           uname := ← unhex un, gname := ← unhex gn, pfx := ← unhex pfx, data := ← unhex data }
+  | _ => none
+
+/-- does a pax extended header body contain the record `<len> <key>=<value>\n`? (length prefix not re-checked) -/
+def isInfix (needle hay : Bytes) : Bool :=
+  let n := needle.length
+  (List.range (hay.length + 1 - n)).any (fun i => (hay.drop i).take n == needle)
+
+def paxHas (body : Bytes) (key : String) (value : Bytes) : Bool :=
+  isInfix ([0x20] ++ key.toUTF8.toList ++ [0x3d] ++ value ++ [0x0a]) body
+
+/-- walk fq's raw entries: `x` (pax) and `L`/`K` (gnu long name / link) entries qualify the next real entry -/
+def tarProp (file : Bytes) (ts : List TarTruth) (obs : Toks) : String :=
+  match obs with
+  | e :: _n :: rest =>
+    if ts.isEmpty then
+      -- an archive without members is only the end marker; fq reports `no files found` (accepted, see assumptions)
+      if e == "err" then "OK" else "PROPFAIL tar: empty archive decoded to something"
+    else if e != "ok" then "PROPFAIL tar: decode error on an intact file" else
+    let (_, segs) := splitAt (fun w => w == "F" || w == "E") rest
+    match (segs.filter (·.1 == "F")).mapM (fun s => tarObs s.2) with
+    | none => "PROPFAIL tar: entry shape"
+    | some es =>
+      -- header checksum of every entry against the Lean sum (entries start at multiples of 512: walk by sizes)
+      let rec sums (fuel : Nat) (pos : Nat) : List TarObs → Option String
+        | [] => none
+        | o :: os =>
+          match fuel with
+          | 0 => some "fuel"
+          | fuel+1 =>
+            let hdr := (file.drop pos).take 512
+            if o.chksum != toString (tarHeaderSum hdr) then some s!"chksum of the header at {pos}: fq {o.chksum}, sum of the header bytes {tarHeaderSum hdr}"
+            else sums fuel (pos + 512 + (o.data.length + 511) / 512 * 512) os
+      match sums (es.length + 1) 0 es with
+      | some why => s!"PROPFAIL tar: {why}"
+      | none =>
+      let rec walk (i : Nat) (ts : List TarTruth) (es : List TarObs) (paxBody : Option Bytes) (longName longLink : Option Bytes) : String :=
+        match es with
+        | [] => if ts.isEmpty then "OK" else s!"PROPFAIL tar: member {i} not reported"
+        | o :: es =>
+          if o.size != toString o.data.length then s!"PROPFAIL tar: entry size {o.size} but {o.data.length} data bytes"
+          else if o.typeflag == [0x78] || o.typeflag == [0x67] then walk i ts es (some o.data) longName longLink
+          else if o.typeflag == [0x4c] then walk i ts es paxBody (some (cstr o.data)) longLink
+          else if o.typeflag == [0x4b] then walk i ts es paxBody longName (some (cstr o.data))
+          else match ts with
+            | [] => "PROPFAIL tar: more entries than members"
+            | t :: ts =>
+              let hdrName := if o.pfx.isEmpty then o.name else o.pfx ++ [0x2f] ++ o.name
+              let nameOk := hdrName == t.name || longName == some t.name ||
+                (match paxBody with | some b => paxHas b "path" t.name | none => false)
+              let link := t.link.getD []
+              let linkOk := o.linkname == link || longLink == some link ||
+                (match paxBody with | some b => paxHas b "linkpath" link | none => false)
+              let numOk (s : String) (v : Nat) (key : String) : Bool :=
+                s == toString v || (match paxBody with | some b => paxHas b key (toString v).toUTF8.toList | none => false)
+              let strOk (s : Bytes) (v : Option Bytes) (key : String) : Bool :=
+                s == v.getD [] || (match paxBody with | some b => paxHas b key (v.getD []) | none => false)
+              if !nameOk then s!"PROPFAIL tar: member {i} name not reported (header name {hexB hdrName})"
+              else if o.data != t.data then s!"PROPFAIL tar: member {i} payload differs"
+              else if o.typeflag != [UInt8.ofNat t.typ] then s!"PROPFAIL tar: member {i} typeflag"
+              else if !linkOk then s!"PROPFAIL tar: member {i} linkname"
+              else if o.mode != toString t.mode then s!"PROPFAIL tar: member {i} mode {o.mode}"
+              else if !numOk o.uid t.uid "uid" then s!"PROPFAIL tar: member {i} uid {o.uid}"
+              else if !numOk o.gid t.gid "gid" then s!"PROPFAIL tar: member {i} gid {o.gid}"
+              else if o.mtime != toString t.mtime then s!"PROPFAIL tar: member {i} mtime {o.mtime}"
+              else if !strOk o.uname t.uname "uname" then s!"PROPFAIL tar: member {i} uname"
+              else if !strOk o.gname t.gname "gname" then s!"PROPFAIL tar: member {i} gname"
+              else walk (i+1) ts es none none none
+      let r := walk 0 ts es none none none
+      if r != "OK" then r else
+      match segs.find? (·.1 == "E") with
+      | some (_, [em]) => if em == "1024" then "OK" else s!"PROPFAIL tar: end marker {em} bytes, 1024 written"
+      | _ => "PROPFAIL tar: end marker missing"
+  | _ => "PROPFAIL tar: no projection"
+
+def stepTar (file : Bytes) (truth obs : Toks) : String :=
+  let (_, segs) := splitAt (· == "F") truth
+  match segs.mapM (fun s => tarTruth s.2) with
+  | none => "BADOP tar truth"
+  | some ts => verdictWith (tarProp file ts obs) (tarModel file) obs
+
+/-! ### png -/
+
+structure PngText where
+  kw : Bytes
+  z : Bool
+  text : Bytes
+
+def pngTexts (truth : Toks) : Option (List PngText) :=
+  let (_, segs) := splitAt (· == "T") truth
+  segs.mapM fun s => do
+    pure { kw := ← kvHex s.2 "kw", z := (← kvNat s.2 "z") == 1, text := ← kvHex s.2 "text" }
+
+def tTEXT : Bytes := [0x74, 0x45, 0x58, 0x74]
+def tZTXT : Bytes := [0x7a, 0x54, 0x58, 0x74]
+def tPLTE : Bytes := [0x50, 0x4c, 0x54, 0x45]
+def tIDAT : Bytes := [0x49, 0x44, 0x41, 0x54]
+
+def pngChunkRaw (c : PngChunk) : Bytes := toBE 4 c.length ++ c.typ ++ c.data ++ toBE 4 c.crc
+
+/-- tokens of one chunk; `texts` are the truth texts not yet consumed (the zTXt inflate oracle) -/
+def pngChunkToks (c : PngChunk) (texts : List PngText) : Toks × List PngText :=
+  let base := ["C", toString c.length, hexB c.typ, bit c.ancillary ++ bit c.priv ++ bit c.reserved ++ bit c.safeToCopy,
+               toString c.crc, c.crcDesc, hexB (pngChunkRaw c)]
+  if c.typ == tIHDR then
+    match c.ihdr with
+    | some i => (base ++ ["I", toString i.width, toString i.height, toString i.bitDepth, toString i.colorType,
+                          toString i.compression, toString i.filter, toString i.interlace], texts)
+    | none => (base ++ ["*"], texts)
+  else if c.typ == tTEXT then
+    match takeCStr c.data with
+    | some (kw, rest) => (base ++ ["T", hexS kw, hexS rest], texts.drop 1)
+    | none => (base ++ ["*"], texts)
+  else if c.typ == tZTXT then
+    match takeCStr c.data with
+    | some (kw, cm :: _) =>
+      if cm == 0 then
+        match texts with
+        | t :: ts => (base ++ ["Z", hexS kw, "0", hexS t.text], ts)
+        | [] => (base ++ ["*"], texts)
+      else (base ++ ["Z", hexS kw, toString cm.toNat, "~"], texts.drop 1)
+    | _ => (base ++ ["*"], texts)
+  else if c.typ == tPLTE then (base ++ ["P", toString (c.data.length / 3)], texts)
+  else (base, texts)
+
+def pngModel (file : Bytes) (texts : List PngText) : Toks :=
+  match parsePng file with
+  | none => ["err", "*"]
+  | some r =>
+    if r.err then ["err", "*"] else
+    let rec go : List PngChunk → List PngText → Toks → Toks
+      | [], _, acc => acc
+      | c :: cs, ts, acc =>
+        let (t, ts') := pngChunkToks c ts
+        if t.getLast? == some "*" then acc ++ t else go cs ts' (acc ++ t)
+    ["ok", hexB pngSig, toString r.chunks.length] ++ go r.chunks texts []
+
+def pngProp (truth : Toks) (texts : List PngText) (obs : Toks) : String :=
+  match obs with
+  | e :: sig :: _n :: rest =>
+    if e != "ok" then "PROPFAIL png: decode error on an intact file"
+    else if sig != hexB pngSig then "PROPFAIL png: signature"
+    else
+    let (_, segs) := splitAt (· == "C") rest
+    let chunks := segs.map (·.2)
+    -- every chunk: stored crc = crc32(type ++ data) by the Lean reference, and shown as valid
+    let rec crcs (i : Nat) : List Toks → Option String
+      | [] => none
+      | c :: cs =>
+        match c with
+        | len :: typ :: _fl :: crc :: cd :: raw :: _ =>
+          match unhex raw with
+          | some rb =>
+            let body := (rb.drop 4).take (rb.length - 8)
+            if toString (beNat (rb.take 4)) != len then some s!"chunk {i}: length"
+            else if hexB (body.take 4) != typ then some s!"chunk {i}: type"
+            else if crc != toString (crc32 body).toNat then some s!"chunk {i}: stored crc is not crc32(type+data)"
+            else if cd != "valid" then some s!"chunk {i}: crc description {cd}"
+            else crcs (i+1) cs
+          | none => some s!"chunk {i}: raw"
+        | _ => some s!"chunk {i}: shape"
+    match crcs 0 chunks with
+    | some why => s!"PROPFAIL png: {why}"
+    | none =>
+      let want := ["I", (kvGet truth "w").getD "?", (kvGet truth "h").getD "?", (kvGet truth "bd").getD "?", (kvGet truth "ct").getD "?", "0", "0", "0"]
+      match chunks with
+      | first :: _ =>
+        if first.drop 6 != want then s!"PROPFAIL png: IHDR fields {showToks (first.drop 6)} expected {showToks want}"
+        else if (chunks.getLast?.bind (·[1]?)) != some (hexB tIEND) then "PROPFAIL png: last chunk is not IEND"
+        else if !(chunks.any (·[1]? == some (hexB tIDAT))) then "PROPFAIL png: no IDAT"
+        else
+          let tchunks := chunks.filter (fun c => c[1]? == some (hexB tTEXT) || c[1]? == some (hexB tZTXT))
+          let rec tx (i : Nat) : List PngText → List Toks → String
+            | [], [] => "OK"
+            | t :: ts, c :: cs =>
+              let tail := c.drop 6
+              if t.z then
+                if tail != ["Z", hexB t.kw, "0", hexB t.text] then s!"PROPFAIL png: zTXt {i} keyword/text differ from what was written"
+                else
+                  -- the zlib stream ends in the Adler-32 of the text
+                  match (c[5]?).bind unhex with
+                  | some rb =>
+                    let zl := (rb.drop (8 + t.kw.length + 2)).take (rb.length - 12 - t.kw.length - 2)
+                    if beNat (zl.drop (zl.length - 4)) != adler32 t.text then s!"PROPFAIL png: zTXt {i}: zlib trailer is not adler32(text)"
+                    else if (beNat (zl.take 2)) % 31 != 0 then s!"PROPFAIL png: zTXt {i}: zlib header check"
+                    else tx (i+1) ts cs
+                  | none => "PROPFAIL png: zTXt raw"
+              else if tail != ["T", hexB t.kw, hexB t.text] then s!"PROPFAIL png: tEXt {i} keyword/text differ from what was written"
+              else tx (i+1) ts cs
+            | _, _ => "PROPFAIL png: number of text chunks"
+          tx 0 texts tchunks
+      | [] => "PROPFAIL png: no chunks"
+  | _ => "PROPFAIL png: no projection"
+
+def stepPng (file : Bytes) (truth obs : Toks) : String :=
+  match pngTexts truth with
+  | none => "BADOP png truth"
+  | some texts => verdictWith (pngProp truth texts obs) (pngModel file texts) obs
+
+/-! ### ogg page -/
+
+def oggCovered (file : Bytes) : Bytes := file.take 22 ++ [0, 0, 0, 0] ++ file.drop 26
+
+def oggModel (file : Bytes) : Toks :=
+  match parseOggPage file with
+  | none => ["err", "*"]
+  | some (p, _) =>
+    ["ok", hexB oggS, toString p.version, toString p.unused, bit p.last, bit p.first, bit p.continued, toString p.granule,
+     toString p.serial, toString p.seqNo, toString p.crc, p.crcDesc, toString p.nseg, toString p.segs.length, hexB p.segs.flatten]
+
+def oggProp (file : Bytes) (truth obs : Toks) : String :=
+  match obs, kvNat truth "flags", kvGet truth "gp", kvGet truth "sn", kvGet truth "seq", kvGet truth "nseg", kvGet truth "data", kvNat truth "good" with
+  | [e, _cp, ver, un, la, fi, co, gp, sn, sq, crc, cd, ns, nsegs, data], some fl, some tgp, some tsn, some tsq, some tns, some tdata, some good =>
+    let ref := crcMsb 0x04C11DB7 32 0 (oggCovered file)
+    if e != "ok" then "PROPFAIL ogg: decode error on an intact page"
+    else if ver != "0" || un != toString (fl / 8) || la != bit (fl.testBit 2) || fi != bit (fl.testBit 1) || co != bit (fl.testBit 0) then "PROPFAIL ogg: flags"
+    else if gp != tgp || sn != tsn || sq != tsq then "PROPFAIL ogg: granule/serial/sequence"
+    else if ns != tns || nsegs != tns then "PROPFAIL ogg: segment count"
+    else if data != tdata then "PROPFAIL ogg: segment data"
+    else if good == 1 && crc != toString ref then "PROPFAIL ogg: stored crc is not the reference crc of the page"
+    else if good == 1 && cd != "valid" then s!"PROPFAIL ogg: correct crc shown as {cd}"
+    else if good == 0 && cd != "invalid" then s!"PROPFAIL ogg: wrong crc shown as {cd}"
+    else "OK"
+  | _, _, _, _, _, _, _, _ => "PROPFAIL ogg: no projection"
+
+/-! ### zip (predicate only) -/
+
+structure ZipTruth where
+  name : Bytes
+  method : Nat
+  dd : Bool
+  fcomment : Option Bytes
+  off : Nat
+  data : Bytes
+
+def zipTruth (seg : Toks) : Option ZipTruth := do
+  pure { name := ← kvHex seg "name", method := ← kvNat seg "method", dd := (← kvNat seg "dd") == 1, fcomment := ← kvHexOpt seg "fcomment",
+         off := ← kvNat seg "off", data := ← kvHex seg "data" }
+
+def zipProp (truth : Toks) (ts : List ZipTruth) (obs : Toks) : String :=
+  match obs with
+  | e :: "E" :: _disk :: _nrd :: nr :: _cds :: _cdo :: comment :: rest =>
+    if e != "ok" then "PROPFAIL zip: decode error on an intact file"
+    else if nr != toString ts.length then s!"PROPFAIL zip: {nr} records, {ts.length} written"
+    else if comment != ((kvGet truth "comment").map (fun c => if c == "~" then "-" else c)).getD "?" then "PROPFAIL zip: archive comment"
+    else
+    let (_, segs) := splitAt (fun w => w == "D" || w == "L") rest
+    let ds := (segs.filter (·.1 == "D")).map (·.2)
+    let ls := (segs.filter (·.1 == "L")).map (·.2)
+    -- the count tokens end up at the tail of the previous segment; compare list lengths instead
+    if ds.length != ts.length then s!"PROPFAIL zip: {ds.length} central directory entries" else
+    if ls.length != ts.length then s!"PROPFAIL zip: {ls.length} local files" else
+    let rec cd (i : Nat) : List ZipTruth → List Toks → Option String
+      | [], _ => none
+      | _, [] => none
+      | t :: ts, d :: ds =>
+        match d with
+        | name :: method :: fl :: crc :: csize :: usize :: lfo :: fc :: _ =>
+          if name != hexB t.name then some s!"central directory {i}: name"
+          else if method != toString t.method then some s!"central directory {i}: method"
+          else if fl.take 1 != bit t.dd then some s!"central directory {i}: data descriptor flag"
+          else if crc != toString (crc32 t.data).toNat then some s!"central directory {i}: crc32_uncompressed is not crc32(payload)"
+          else if usize != toString t.data.length then some s!"central directory {i}: uncompressed_size"
+          else if t.method == 0 && csize != toString t.data.length then some s!"central directory {i}: compressed_size of a stored member"
+          else if lfo != toString t.off then some s!"central directory {i}: local header offset"
+          else if fc != hexB (t.fcomment.getD []) then some s!"central directory {i}: comment"
+          else cd (i+1) ts ds
+        | _ => some s!"central directory {i}: shape"
+    match cd 0 ts ds with
+    | some why => s!"PROPFAIL zip: {why}"
+    | none =>
+      let rec lf (i : Nat) : List ZipTruth → List Toks → String
+        | [], _ => "OK"
+        | _, [] => "OK"
+        | t :: ts, l :: ls =>
+          match l with
+          | name :: method :: fl :: crc :: _csize :: usize :: u :: _clen :: ddp :: _ddsig :: ddcrc :: _ddcs :: ddus :: _ =>
+            let known := t.method == 0 && t.dd && !t.data.isEmpty
+            let bad :=
+              if name != hexB t.name then "name"
+              else if method != toString t.method then "method"
+              else if fl.take 1 != bit t.dd then "data descriptor flag"
+              else if u != hexB t.data then "uncompressed payload differs from what was written"
+              else if !t.dd && crc != toString (crc32 t.data).toNat then "crc32_uncompressed is not crc32(payload)"
+              else if !t.dd && usize != toString t.data.length then "uncompressed_size"
+              else if t.dd && ddp != "1" then "data descriptor missing"
+              else if t.dd && ddcrc != toString (crc32 t.data).toNat then "descriptor crc32 is not crc32(payload)"
+              else if t.dd && ddus != toString t.data.length then "descriptor uncompressed_size"
+              else ""
+            if bad.isEmpty then lf (i+1) ts ls
+            else if known then s!"KNOWN zip-stored-data-descriptor local file {i}: {bad}"
+            else s!"PROPFAIL zip: local file {i}: {bad}"
+          | _ => s!"PROPFAIL zip: local file {i}: shape"
+      lf 0 ts ls
+  | _ => "PROPFAIL zip: no projection"
+
+/-! ### gif (predicate only; `P` tokens = LZW expansion, by the harness with Go's compress/lzw, of the bytes fq reports) -/
+
+def gifProp0 (truth obs : Toks) : String :=
+  match obs with
+  | e :: hdr :: w :: h :: gcp :: _cres :: _z :: _bd :: _bc :: _par :: gcm :: _nb :: rest =>
+    if e != "ok" then "PROPFAIL gif: decode error on an intact file"
+    else if hdr != "474946383961" then "PROPFAIL gif: header"
+    else if some w != kvGet truth "w" || some h != kvGet truth "h" then "PROPFAIL gif: logical screen size"
+    else if gcp != bit (kvNat truth "gct" == some 1) then "PROPFAIL gif: global colour map flag"
+    else if kvNat truth "gct" == some 1 && !((kvGet truth "pal").map (fun p => gcm.startsWith p)).getD false then "PROPFAIL gif: global colour map does not start with the palette"
+    else
+    let (_, tsegs) := splitAt (· == "I") truth
+    let (_, segs) := splitAt (fun x => x == "I" || x == "X" || x == "T") rest
+    let imgs := (segs.filter (·.1 == "I")).map (·.2)
+    if imgs.length != tsegs.length then s!"PROPFAIL gif: {imgs.length} images, {tsegs.length} written" else
+    if (segs.find? (·.1 == "T")).map (·.2) != some ["59"] then "PROPFAIL gif: trailer" else
+    -- delays: a graphic control extension (0xf9 = 249) qualifies the next image; none = delay 0
+    let rec go (i : Nat) (ts : List (String × Toks)) (bl : List (String × Toks)) (pending : Option Nat) : String :=
+      match bl with
+      | [] => if ts.isEmpty then "OK" else s!"PROPFAIL gif: image {i} missing"
+      | (k, b) :: bl =>
+        if k == "X" then
+          match b with
+          | ["249", _, d] =>
+            match unhex d with
+            | some [_, lo, hi, _] => go i ts bl (some (lo.toNat + 256 * hi.toNat))
+            | _ => s!"PROPFAIL gif: graphic control block before image {i}"
+          | _ => go i ts bl pending
+        else if k == "I" then
+          match ts, b with
+          | (_, t) :: ts, l :: tp :: iw :: ih :: lcm :: il :: _bd :: _cs :: lmap :: _nsub :: _bytes :: "P" :: pix :: _ =>
+            if lcm != bit (kvNat truth "gct" != some 1) then s!"PROPFAIL gif: image {i} local colour map flag"
+            else if lcm == "1" && !((kvGet truth "pal").map (fun p => lmap.startsWith p)).getD false then s!"PROPFAIL gif: image {i} local colour map does not start with the palette"
+            else if some l != kvGet t "x" || some tp != kvGet t "y" || some iw != kvGet t "w" || some ih != kvGet t "h" then s!"PROPFAIL gif: image {i} position/size"
+            else if il != "0" then s!"PROPFAIL gif: image {i} interlace flag"
+            else if some pix != kvGet t "pix" then s!"PROPFAIL gif: image {i}: the LZW data fq reports does not expand to the pixels written"
+            else if kvNat t "delay" != some (pending.getD 0) then s!"PROPFAIL gif: image {i} delay"
+            else go (i+1) ts bl none
+          | _, _ => s!"PROPFAIL gif: image {i} shape"
+        else go i ts bl pending
+    go 0 tsegs segs none
+  | _ => "PROPFAIL gif: no projection"
+
+/-- known finding `gif-local-color-map-order` (gif.go:126-131, pinned by format/gif/testdata/4x4.fqtest):
+    `code_size` is read BEFORE the local colour table although the file has the table first, so with a
+    local table the reported code_size is the first colour byte and the table is shifted by one byte,
+    ending in the real LZW code size. `gifProp0` is evaluated on the projection with that shift undone
+    (so every other field is still checked strictly); the verdict for such a file is then KNOWN. -/
+def gifUnshift (obs : Toks) : Toks × Bool :=
+  let rec go : Toks → Toks → Bool → Toks × Bool
+    | [], acc, sh => (acc.reverse, sh)
+    | "I" :: l :: t :: w :: h :: "1" :: il :: bd :: cs :: lmap :: rest, acc, _ =>
+      -- bytes as the file has them: [cs] ++ lmap = table ++ [real code size]
+      let csHex := match cs.toNat? with
+        | some n => hexOfBytes [UInt8.ofNat n]
+        | none => "??"
+      let all := csHex ++ lmap
+      let table := (all.dropEnd 2).toString
+      let real := match unhex (all.drop (all.length - 2)).toString with
+        | some [b] => toString b.toNat
+        | _ => "?"
+      go rest (table :: real :: bd :: il :: "1" :: h :: w :: t :: l :: "I" :: acc) true
+    | x :: rest, acc, sh => go rest (x :: acc) sh
+  go obs [] false
+
+def gifProp (truth obs : Toks) : String :=
+  let (o, shifted) := gifUnshift obs
+  let r := gifProp0 truth o
+  if shifted then
+    if r == "OK" then "KNOWN gif-local-color-map-order code_size and local_color_map are shifted by one byte (every other field as written)"
+    else r
+  else r
+
+/-! ### wav (predicate only) -/
+
+/-- tokens of the chunk with the given id (hex) : everything between its "(" and the next "(" or ")" -/
+def wavChunk (obs : Toks) (idHex : String) : Option Toks :=
+  let rec go : Toks → Option Toks
+    | [] => none
+    | "(" :: i :: r => if i == idHex then some (r.takeWhile (fun w => w != "(" && w != ")")) else go r
+    | _ :: r => go r
+  go obs
+
+def wavProp (file : Bytes) (truth obs : Toks) : String :=
+  match obs with
+  | e :: rest =>
+    if e != "ok" then "PROPFAIL wav: decode error on an intact file" else
+    match wavChunk rest "52494646", wavChunk rest "666d74", wavChunk rest "64617461" with
+    | some riff, some fmt, some data =>
+      let g := fun k => (kvGet truth k).getD "?"
+      let fv := g "fv"
+      if riff != [toString (file.length - 8), "R", "57415645"] then "PROPFAIL wav: RIFF size/form type"
+      else match fmt, data with
+        | _sz :: "F" :: af :: ch :: rate :: brate :: al :: bits :: cb :: ex :: es :: vb :: mask :: sub :: _, [dsz, "S", samples] =>
+          if [af, ch, rate, brate, al, bits] != [g "af", g "ch", g "rate", g "brate", g "align", g "bits"] then "PROPFAIL wav: fmt fields"
+          else if fv == "0" && (cb != "~" || es != "~") then "PROPFAIL wav: plain fmt chunk shows extension fields"
+          else if fv == "1" && (cb != g "cb" || ex != g "ex") then "PROPFAIL wav: cb_size / extra bytes"
+          else if fv == "2" && (es != "22" || vb != g "vb" || mask != g "mask" || sub != "0100000000001000800000aa00389b71") then "PROPFAIL wav: extensible fmt fields"
+          else if samples != g "samples" then "PROPFAIL wav: samples differ from what was written"
+          else if some dsz != ((kvHex truth "samples").map (fun s => toString s.length)) then "PROPFAIL wav: data chunk size"
+          else
+            let info := g "info"
+            if info != "~" && (wavChunk rest "49415254").map (fun c => c.drop 1) != some ["V", info] then "PROPFAIL wav: LIST/INFO IART value"
+            else match kvGet truth "fact" with
+              | some f => if (wavChunk rest "66616374").map (fun c => c.drop 1) != some ["A", f] then "PROPFAIL wav: fact sample_length" else "OK"
+              | none => "OK"
+        | _, _ => "PROPFAIL wav: fmt/data chunk shape"
+    | _, _, _ => "PROPFAIL wav: RIFF, fmt or data chunk missing"
+  | _ => "PROPFAIL wav: no projection"
+
+/-! ### bzip2 (predicate only; writer: the bzip2 program) -/
+
+/-- known finding `bzip2-single-block-only`: format/bzip2/bzip2.go decodes the header of ONE block and compares
+    its crc (and the stream crc derived from it) with the crc of the whole decompressed stream; a stream with
+    several blocks reads `invalid` although intact, a stream without blocks (empty input) is a decode error.
+    Excused class: truth blocks != 1. -/
+def bzip2Prop (truth obs : Toks) : String :=
+  let known := kvNat truth "blocks" != some 1
+  let r :=
+    match obs with
+    | [e, magic, _ver, lvl, _bcrc, bdesc, _fcrc, fdesc, u] =>
+      if e != "ok" then "PROPFAIL bzip2: decode error on an intact file"
+      else if magic != "425a" then "PROPFAIL bzip2: magic"
+      else if some lvl != (kvNat truth "level").map (fun l => toString (48 + l)) then "PROPFAIL bzip2: block size digit"
+      else if some u != kvGet truth "data" then "PROPFAIL bzip2: uncompressed differs from what was compressed"
+      else if bdesc != "valid" then s!"PROPFAIL bzip2: block crc of an intact file shown as {bdesc}"
+      else if fdesc != "valid" then s!"PROPFAIL bzip2: stream crc of an intact file shown as {fdesc}"
+      else "OK"
+    | _ => "PROPFAIL bzip2: no projection"
+  if known && r.startsWith "PROPFAIL" then "KNOWN bzip2-single-block-only " ++ (r.drop 9).toString else r
+
+/-! ### corruption -/
+
+def parseCorr (w : String) : Option (Nat × String) :=
+  match w.splitOn ":" with
+  | [p, _x, k] => p.toNat?.map (·, k)
+  | _ => none
+
+/-- byte ranges [a,b) that a checksum verified by fq covers directly, from the driver's own parse -/
+def directRegions (format : String) (file : Bytes) : Option (List (Nat × Nat)) :=
+  if format == "png" then
+    let rec go (fuel pos : Nat) (bs : Bytes) (acc : List (Nat × Nat)) : List (Nat × Nat) :=
+      match fuel with
+      | 0 => acc
+      | fuel+1 =>
+        if bs.length < 12 then acc else
+        let l := beNat (bs.take 4)
+        go fuel (pos + 12 + l) (bs.drop (12 + l)) ((pos + 4, pos + 12 + l) :: acc)
+    some (go (file.length / 12 + 1) 8 (file.drop 8) [])
+  else if format == "ogg_page" then some [(0, file.length)]
+  else none
+
+def stepCor (format : String) (file : Bytes) (cs obs : Toks) : String :=
+  match cs.mapM parseCorr with
+  | none => "BADOP cor positions"
+  | some cs =>
+    if cs.length != obs.length then "BADOP cor count" else
+    let regs := directRegions format file
+    let rec go : List (Nat × String) → Toks → Option String → String
+      | [], _, known => known.getD "OK"
+      | _, [], known => known.getD "OK"
+      | (p, k) :: cs, o :: os, known =>
+        if p ≥ file.length then s!"BADOP position {p} outside the file"
+        else if k == "d" && (match regs with | some rs => !(rs.any fun r => r.1 ≤ p && p < r.2) | none => false) then
+          s!"BADOP position {p} is not inside a checksummed region of the driver's own parse"
+        else
+          let okSet : List String :=
+            if k == "d" then ["E", "I"] else if k == "z" || k == "a" then ["E", "I", "C="] else if k == "u" then ["E", "I"] else []
+          if okSet.isEmpty then s!"BADOP kind {k}"
+          else if okSet.contains o then go cs os known
+          else if format == "bzip2" && o == "N" then
+            go cs os (known <|> some s!"KNOWN bzip2-decompress-error-ignored byte {p} altered: no error, no invalid, uncompressed absent")
+          else if k == "u" && (format == "zip" || format == "tar") && (o == "C=" || o == "C!") then
+            go cs os (known <|> some s!"KNOWN checksum-not-validated {format}: byte {p} altered, result clean ({o})")
+          else s!"PROPFAIL {format}: byte {p} (kind {k}) altered inside a checksummed region, result {o} — clean"
+    go cs obs none
+
+/-! ### dispatch -/
+
+def stepC15 (op obs : String) : String :=
+  match words op with
+  | ["crc", name, bits, init, hex] => stepCrc name bits init hex obs
+  | "dec" :: format :: fhex :: truth =>
+    match unhex fhex with
+    | none => "BADOP file hex"
+    | some file =>
+      let o := words obs
+      if o.head? == some "panic" then s!"PROPFAIL {format}: fq panicked"
+      else if o.head? == some "noline" || o.contains "JQERR" then s!"BADOP projection failed: {obs.take 200}"
+      else if format == "gzip" then stepGzip file truth o
+      else if format == "tar" then stepTar file truth o
+      else if format == "png" then stepPng file truth o
+      else if format == "ogg_page" then verdictWith (oggProp file truth o) (oggModel file) o
+      else if format == "zip" then
+        let (pre, segs) := splitAt (· == "F") truth
+        match segs.mapM (fun s => zipTruth s.2) with
+        | some ts => zipProp pre ts o
+        | none => "BADOP zip truth"
+      else if format == "gif" then gifProp truth o
+      else if format == "wav" then wavProp file truth o
+      else if format == "bzip2" then bzip2Prop truth o
+      else "BADOP format"
+  | "cor" :: format :: fhex :: cs =>
+    match unhex fhex with
+    | none => "BADOP file hex"
+    | some file => stepCor format file cs (words obs)
+  | _ => "BADOP op"
+
+def main : IO Unit := run stepC15
